@@ -89,7 +89,7 @@ def run(ctx):
     pr = ctx.proofs("c16", "C16Theorems.v")
     prs = [pr] + [ctx.proofs("c16", f) for f in EXTRA_THEOREM_FILES]
     # correspondence
-    n = ctx.n(5000, 100000)
+    n = ctx.n(5000, 60000)
     rc, cases, e = sh2(limited(exe, ["corr", "-seed", ctx.seed, "-n", n]), timeout=3000)
     if rc != 0:
         raise common.CheckError("harness corr failed: " + e[-1000:])
